@@ -57,6 +57,13 @@ def run (j : Json) : Json :=
         obj [("entries", toJson ((rawEntries cols).map (fun e => names.filterMap (fun n => (cols.findIdx? (fun c => c.1 == n)).bind (e[·]?))))),
              ("len", toJson ((cols.head?.map (·.2.length)).getD 0)), ("names", toJson names)] else refuse
     obj [("L", l), ("S", s)]
+  | "eq" =>
+    let cols2 := parseTable (fld j "cols2")
+    let l : Json := match mk? cols, mk? cols2 with
+      | some t, some u => toJson (DC.eq t u)
+      | _, _ => refuse
+    let s : Json := if okCols cols && okCols cols2 then toJson (decide (rawEntries cols = rawEntries cols2)) else refuse
+    obj [("L", l), ("S", s)]
   | "varlen" =>
     let ms := (jArr (fld j "mats")).map (fun m => (jIntRows (fld m "rows"), fldNat m "w"))
     let w := ms.foldl (fun m p => max m p.2) 0
